@@ -3,7 +3,7 @@
 (* stack must be a step of Server.tla with the same observable outcome     *)
 (* (response type, effects, token liveness), and every invariant of        *)
 (* Server.tla is evaluated in every state of the implementation trace.     *)
-EXTENDS Server, Json
+EXTENDS Server, MutantClasses, Json
 
 VARIABLE l
 
@@ -23,6 +23,13 @@ Match == /\ last'.resp = Ev.resp
          /\ FxNames(last'.fx) = Ev.fx
          /\ last'.live = Ev.live
 
+(* an accepted mutant of TO0.OwnerSign may have asked for another time-to-live (the wait seconds are *)
+(* part of what is mutated): the harness reports the stored value of mutants as "any"               *)
+FxNameMutant(f) == IF f.k = "SetRVBlob" THEN "SetRVBlob:" \o f.d \o ":any" ELSE FxName(f)
+MatchMutant == /\ last'.resp = Ev.resp
+               /\ [i \in 1..Len(last'.fx) |-> FxNameMutant(last'.fx[i])] = Ev.fx
+               /\ last'.live = Ev.live
+
 TStart   == Ev.kind = "start"  /\ Start(Ev.s, Ev.p, Ev.d) /\ Match
 THonest  == Ev.kind = "honest" /\ Honest(Ev.s) /\ last'.t = Ev.t /\ Match
 TForged  == Ev.kind = "forged" /\ Mutated(Ev.s, Ev.b) /\ last'.t = Ev.t /\ Match
@@ -35,7 +42,8 @@ TMutant  == /\ Ev.kind = "mutant"
                \/ Ev.b # "http" /\ Ev.t \in ReqTypes /\ Mutant(Ev.s, Ev.t)
                \/ Ev.b # "http" /\ Ev.t \in StartTypes /\ MutantStart(Ev.s, Ev.t)
                \/ Ev.b # "http" /\ Ev.t = 255 /\ MutantError(Ev.s)
-            /\ Match
+            /\ ("fam" \in DOMAIN Ev => SrvApplies(Ev.t, Ev.b, Ev.fam))     \* classed mutants (Server_Mutants): the class exists at this message
+            /\ MatchMutant
 TOrphan  == Ev.kind = "orphan" /\ OrphanStart(Ev.s, Ev.t, Ev.b) /\ Match
 TErrMsg  == Ev.kind = "errmsg" /\ ErrorMsg(Ev.s, Ev.tok) /\ Match
 TExpire  == /\ Ev.kind = "expire"
